@@ -427,16 +427,16 @@ c18c_inst! {
 // non-validating decode), exactly the admitted verifiable attributes are validated (all of them with
 // not_ignore), none without with_validation.
 // ---------------------------------------------------------------------------------------------
-static mut VAL_CALLS: usize = 0;
-static mut VAL_ANS: [bool; 2] = [false; 2];
-fn fp_validate_any(_this: &crate::attributes::stun::Fingerprint, _input: &[u8]) -> bool {
+pub(crate) static mut VAL_CALLS: usize = 0;
+pub(crate) static mut VAL_ANS: [bool; 2] = [false; 2];
+pub(crate) fn fp_validate_any(_this: &crate::attributes::stun::Fingerprint, _input: &[u8]) -> bool {
     unsafe {
         let k = VAL_CALLS;
         VAL_CALLS += 1;
         k < 2 && VAL_ANS[k]
     }
 }
-fn input_text_empty(_buffer: &[u8], _attr_type: u16) -> Result<Vec<u8>, crate::StunError> {
+pub(crate) fn input_text_empty(_buffer: &[u8], _attr_type: u16) -> Result<Vec<u8>, crate::StunError> {
     Ok(Vec::with_capacity(1))
 }
 fn c18v<const OPT: u8, const PATTERN: u8>() {
@@ -517,76 +517,6 @@ c18v_inst! {
     c18v_validate_fp_fp = (9, 2);
     c18v_validate_not_ignore_fp_fp = (11, 2);
     c18v_novalidate_fp_fp = (1, 2);
-}
-
-// ---------------------------------------------------------------------------------------------
-// C18 (unit level): context::validate_attribute, the only place where `with_validation` acts.  It
-// takes shared references only; decided here for a verifiable (FINGERPRINT) and a non-verifiable
-// (PRIORITY) attribute under every option set and both verdicts of the (stubbed, counted) CRC check:
-// it can only turn Ok into Err, does so exactly when validation is on, the attribute is verifiable
-// and the primitive says no, and calls the primitive only then.
-// ---------------------------------------------------------------------------------------------
-fn c18_validate_unit<const VERIFIABLE: bool>() {
-    let raw: [u8; 4] = kani::any();
-    let attr: StunAttribute = if VERIFIABLE {
-        crate::attributes::stun::Fingerprint::from(raw).into()
-    } else {
-        crate::attributes::ice::Priority::from(u32::from_be_bytes(raw)).into()
-    };
-    let buf: [u8; 28] = kani::any();
-    let has_ctx: bool = kani::any();
-    let val: bool = kani::any();
-    let ni: bool = kani::any();
-    let ud: bool = kani::any();
-    let ctx: Option<DecoderContext> = if has_ctx {
-        let mut b = DecoderContextBuilder::default();
-        if val {
-            b = b.with_validation();
-        }
-        if ni {
-            b = b.not_ignore();
-        }
-        if ud {
-            b = b.with_unknown_data();
-        }
-        Some(b.build())
-    } else {
-        None
-    };
-    let ans: [bool; 2] = kani::any();
-    unsafe {
-        VAL_CALLS = 0;
-        VAL_ANS = ans;
-    }
-    let r = validate_attribute(&attr, &ctx, &buf);
-    let calls = unsafe { VAL_CALLS };
-    let active = has_ctx && val && VERIFIABLE;
-    if active {
-        assert!(calls == 1, "C18: one verification per validated attribute");
-        assert!(r.is_ok() == ans[0], "C18: validation fails exactly when the attribute does not verify");
-    } else {
-        assert!(calls == 0, "C18: nothing is verified without with_validation / for a non-verifiable attribute");
-        assert!(r.is_ok(), "C18: validation off => never an error from validation");
-    }
-    kani::cover!(active && r.is_err());
-    kani::cover!(r.is_ok());
-    std::mem::forget(r);
-    std::mem::forget(attr);
-    std::mem::forget(ctx);
-}
-macro_rules! c18vu_inst {
-    ($($name:ident = $v:expr;)*) => {$(
-        #[kani::proof]
-        #[kani::unwind(6)]
-        #[kani::stub(alloc::fmt::format, nofmt)]
-        #[kani::stub(crate::attributes::stun::fingerprint::Fingerprint::validate, fp_validate_any)]
-        #[kani::stub(crate::raw::get_input_text, input_text_empty)]
-        fn $name() { c18_validate_unit::<$v>(); }
-    )*};
-}
-c18vu_inst! {
-    c18_validate_unit_fingerprint = true;
-    c18_validate_unit_priority = false;
 }
 
 // ---------------------------------------------------------------------------------------------
